@@ -176,16 +176,16 @@ def setVar (σ : St) (ρ : Env) (x : String) (v : Obj) : St :=
 def setInFrame (σ : St) (fid : Nat) (x : String) (v : Obj) : St :=
   { σ with frames := σ.frames.modify fid (setAssoc x v) }
 
-/-- allocate a frame, returning its id -/
-def allocFrame (σ : St) (fr : List (String × Obj)) : Nat × St :=
-  (σ.frames.length, { σ with frames := σ.frames ++ [fr] })
+/-- allocate a frame: its id is the current number of frames -/
+def addFrame (σ : St) (fr : List (String × Obj)) : St := { σ with frames := σ.frames ++ [fr] }
 
 def pushFrame (ρ : Env) (fid : Nat) : Env := { ρ with frames := fid :: ρ.frames }
 
-def allocClosure (σ : St) (c : Closure) : Nat × St :=
-  (σ.clos.length, { σ with clos := σ.clos ++ [c] })
+/-- allocate a closure: its id is the current number of closures -/
+def addClosure (σ : St) (c : Closure) : St := { σ with clos := σ.clos ++ [c] }
 
-def freshId (σ : St) : Nat × St := (σ.nextId, { σ with nextId := σ.nextId + 1 })
+/-- consume the unique id `σ.nextId` -/
+def bumpId (σ : St) : St := { σ with nextId := σ.nextId + 1 }
 
 def traceAdd (σ : St) (v : Obj) : St := { σ with trace := σ.trace ++ [v] }
 
@@ -465,31 +465,37 @@ def zipFrame : List String → List Obj → List (String × Obj)
 section step
 variable (rec : Task → St → Res)
 
-/-- function application: the callee's environment is the closure's definition environment
-extended by one new frame for the parameters — the caller's environment is not an input. -/
+/-- calling a closure: the callee's environment is the closure's *definition* environment extended
+by one new frame for the parameters — the caller's environment is not an input. A named function
+(defun) has an implicit block of its name. -/
+def callClosure (args : List Obj) (cid : Nat) (σ : St) : Res :=
+  match σ.clos[cid]? with
+  | none => (.err typeError, σ)
+  | some c =>
+    if c.params.length != args.length then (.err programError, σ) else
+    if c.name == "" then
+      rec (.seq (pushFrame c.env σ.frames.length) c.body) (addFrame σ (zipFrame c.params args))
+    else
+      catchRet σ.nextId
+        (rec (.seq (withBlock (pushFrame c.env σ.frames.length) c.name σ.nextId) c.body)
+          (bumpId (addFrame σ (zipFrame c.params args))))
+
+/-- calling by name: the global function table is consulted at call time (late binding), then the
+primitives -/
+def callNamed (args : List Obj) (name : String) (σ : St) : Res :=
+  match σ.funs.lookup name with
+  | some cid => callClosure rec args cid σ
+  | none =>
+    match primOf name with
+    | some p => applyPrim p args σ
+    | none => (.err "undefined-function", σ)
+
+/-- function application -/
 def stepApply (f : Obj) (args : List Obj) (σ : St) : Res :=
-  let callClosure (cid : Nat) : Res :=
-    match σ.clos[cid]? with
-    | none => (.err typeError, σ)
-    | some c =>
-      if c.params.length != args.length then (.err programError, σ) else
-      let (fid, σ1) := allocFrame σ (zipFrame c.params args)
-      let ρ := pushFrame c.env fid
-      if c.name == "" then rec (.seq ρ c.body) σ1
-      else
-        let (bid, σ2) := freshId σ1
-        catchRet bid (rec (.seq (withBlock ρ c.name bid) c.body) σ2)
-  let callNamed (name : String) : Res :=
-    match σ.funs.lookup name with
-    | some cid => callClosure cid
-    | none =>
-      match primOf name with
-      | some p => applyPrim p args σ
-      | none => (.err "undefined-function", σ)
   match f with
-  | .clo cid => callClosure cid
-  | .fn name => callNamed name
-  | .sym name => callNamed name
+  | .clo cid => callClosure rec args cid σ
+  | .fn name => callNamed rec args name σ
+  | .sym name => callNamed rec args name σ
   | _ => (.err typeError, σ)
 
 def stepSeq (ρ : Env) (es : List Obj) (σ : St) : Res :=
@@ -542,8 +548,7 @@ def stepLetStar (ρ : Env) (bs : List (String × Obj)) (body : List Obj) (σ : S
   | [] => rec (.seq ρ body) σ
   | (x, init) :: bs =>
     bindV (rec (.form ρ init) σ) (fun v σ1 =>
-      let (fid, σ2) := allocFrame σ1 [(x, prim v)]
-      rec (.letStar (pushFrame ρ fid) bs body) σ2)
+      rec (.letStar (pushFrame ρ σ1.frames.length) bs body) (addFrame σ1 [(x, prim v)]))
 
 def stepSetq (ρ : Env) (ps : List Obj) (last : Obj) (σ : St) : Res :=
   match ps with
@@ -593,8 +598,7 @@ def stepDoStarInit (ρ : Env) (bs : List (String × Obj)) (spec : DoSpec) (σ : 
   | [] => rec (.doLoop ρ spec) σ
   | (x, init) :: bs =>
     bindV (rec (.form ρ init) σ) (fun v σ1 =>
-      let (fid, σ2) := allocFrame σ1 [(x, prim v)]
-      rec (.doStarInit (pushFrame ρ fid) bs spec) σ2)
+      rec (.doStarInit (pushFrame ρ σ1.frames.length) bs spec) (addFrame σ1 [(x, prim v)]))
 
 def stepForms (vars : List (String × Option Obj)) : List Obj :=
   vars.filterMap (fun p => p.2)
@@ -645,11 +649,10 @@ def callableCheck (σ : St) (f : Obj) : Option String :=
   | .sym name => named name
   | _ => some typeError
 
-/-- enter a loop form: implicit block `nil` around everything, implicit tagbody around the body -/
-def enterLoop (ρ : Env) (body : List Obj) (σ : St) : Env × Nat × Nat × St :=
-  let (bid, σ1) := freshId σ
-  let (tbid, σ2) := freshId σ1
-  (withTags (withBlock ρ "nil" bid) tbid body, bid, tbid, σ2)
+/-- enter a loop form: implicit block `nil` (id `σ.nextId`) around everything, implicit tagbody
+(id `σ.nextId + 1`) around the body -/
+def loopEnv (ρ : Env) (body : List Obj) (σ : St) : Env :=
+  withTags (withBlock ρ "nil" σ.nextId) (σ.nextId + 1) body
 
 /-- special forms and calls: `a` is the decoded argument spine -/
 def stepForm (ρ : Env) (head : String) (a : List Obj) (σ : St) : Res :=
@@ -684,8 +687,7 @@ def stepForm (ρ : Env) (head : String) (a : List Obj) (σ : St) : Res :=
     | none => (.err programError, σ)
     | some bs =>
       bindV (rec (.args ρ (bs.map (·.2))) σ) (fun vs σ1 =>
-        let (fid, σ2) := allocFrame σ1 (zipFrame (bs.map (·.1)) vs)
-        rec (.seq (pushFrame ρ fid) body) σ2)
+        rec (.seq (pushFrame ρ σ1.frames.length) body) (addFrame σ1 (zipFrame (bs.map (·.1)) vs)))
   | .letStar, bs :: body =>
     match (listOf bs).bind parseBindings with
     | none => (.err programError, σ)
@@ -695,8 +697,7 @@ def stepForm (ρ : Env) (head : String) (a : List Obj) (σ : St) : Res :=
     match (listOf ps).bind symNames with
     | none => (.err programError, σ)
     | some ps =>
-      let (cid, σ1) := allocClosure σ { params := ps, body := body, env := ρ, name := "" }
-      (.val [.clo cid], σ1)
+      (.val [.clo σ.clos.length], addClosure σ { params := ps, body := body, env := ρ, name := "" })
   | .function, [.sym name] => (.val [.fn name], σ)
   | .function, [.cons (.sym "lambda") rest] => rec (.form ρ (.cons (.sym "lambda") rest)) σ
   | .funcall, f :: as =>
@@ -737,53 +738,48 @@ def stepForm (ρ : Env) (head : String) (a : List Obj) (σ : St) : Res :=
     match (listOf ps).bind symNames with
     | none => (.err programError, σ)
     | some ps =>
-      let (cid, σ1) := allocClosure σ { params := ps, body := body, env := ρ, name := name }
-      (.val [.sym name], setFun σ1 name cid)
+      (.val [.sym name],
+        setFun (addClosure σ { params := ps, body := body, env := ρ, name := name }) name σ.clos.length)
   | .dolist, spec :: body =>
     match listOf spec with
     | some (.sym var :: listForm :: result) =>
       if result.length > 1 then (.err programError, σ) else
-      let (ρ1, bid, tbid, σ1) := enterLoop ρ body σ
-      catchRet bid (
-        bindV (rec (.form ρ1 listForm) σ1) (fun v σ2 =>
+      catchRet σ.nextId (
+        bindV (rec (.form (loopEnv ρ body σ) listForm) (bumpId (bumpId σ))) (fun v σ2 =>
           match listOf (prim v) with
           | none => (.err typeError, σ2)
           | some items =>
-            let (fid, σ3) := allocFrame σ2 [(var, .nil)]
-            rec (.dolistLoop (pushFrame ρ1 fid) fid var items body tbid result) σ3))
+            rec (.dolistLoop (pushFrame (loopEnv ρ body σ) σ2.frames.length) σ2.frames.length var items body
+              (σ.nextId + 1) result) (addFrame σ2 [(var, .nil)])))
     | _ => (.err programError, σ)
   | .dotimes, spec :: body =>
     match listOf spec with
     | some (.sym var :: countForm :: result) =>
       if result.length > 1 then (.err programError, σ) else
-      let (ρ1, bid, tbid, σ1) := enterLoop ρ body σ
-      catchRet bid (
-        bindV (rec (.form ρ1 countForm) σ1) (fun v σ2 =>
+      catchRet σ.nextId (
+        bindV (rec (.form (loopEnv ρ body σ) countForm) (bumpId (bumpId σ))) (fun v σ2 =>
           match prim v with
           | .int n =>
-            let (fid, σ3) := allocFrame σ2 [(var, .nil)]
-            rec (.dotimesLoop (pushFrame ρ1 fid) fid var 0 n.toNat body tbid result) σ3
+            rec (.dotimesLoop (pushFrame (loopEnv ρ body σ) σ2.frames.length) σ2.frames.length var 0 n.toNat body
+              (σ.nextId + 1) result) (addFrame σ2 [(var, .nil)])
           | _ => (.err typeError, σ2)))
     | _ => (.err programError, σ)
   | .do_, bs :: endc :: body =>
     match (listOf bs).bind parseDoBindings, listOf endc with
     | some bs, some (test :: results) =>
-      let (ρ1, bid, tbid, σ1) := enterLoop ρ body σ
-      catchRet bid (
-        bindV (rec (.args ρ1 (bs.map (·.2.1))) σ1) (fun vs σ2 =>
-          let (fid, σ3) := allocFrame σ2 (zipFrame (bs.map (·.1)) vs)
-          rec (.doLoop (pushFrame ρ1 fid)
+      catchRet σ.nextId (
+        bindV (rec (.args (loopEnv ρ body σ) (bs.map (·.2.1))) (bumpId (bumpId σ))) (fun vs σ2 =>
+          rec (.doLoop (pushFrame (loopEnv ρ body σ) σ2.frames.length)
             { vars := bs.map (fun b => (b.1, b.2.2)), test := test, results := results, body := body,
-              sequential := false, tbid := tbid }) σ3))
+              sequential := false, tbid := σ.nextId + 1 }) (addFrame σ2 (zipFrame (bs.map (·.1)) vs))))
     | _, _ => (.err programError, σ)
   | .doStar, bs :: endc :: body =>
     match (listOf bs).bind parseDoBindings, listOf endc with
     | some bs, some (test :: results) =>
-      let (ρ1, bid, tbid, σ1) := enterLoop ρ body σ
-      catchRet bid (
-        rec (.doStarInit ρ1 (bs.map (fun b => (b.1, b.2.1)))
+      catchRet σ.nextId (
+        rec (.doStarInit (loopEnv ρ body σ) (bs.map (fun b => (b.1, b.2.1)))
           { vars := bs.map (fun b => (b.1, b.2.2)), test := test, results := results, body := body,
-            sequential := true, tbid := tbid }) σ1)
+            sequential := true, tbid := σ.nextId + 1 }) (bumpId (bumpId σ)))
     | _, _ => (.err programError, σ)
   | .values, es => rec (.args ρ es) σ
   | .mvBind, vars :: vform :: body =>
@@ -791,16 +787,13 @@ def stepForm (ρ : Env) (head : String) (a : List Obj) (σ : St) : Res :=
     | none => (.err programError, σ)
     | some xs =>
       bindV (rec (.form ρ vform) σ) (fun vs σ1 =>
-        let (fid, σ2) := allocFrame σ1 (zipFrame xs vs)
-        rec (.seq (pushFrame ρ fid) body) σ2)
+        rec (.seq (pushFrame ρ σ1.frames.length) body) (addFrame σ1 (zipFrame xs vs)))
   | .mvList, [e] =>
     bindV (rec (.form ρ e) σ) (fun vs σ1 => (.val [ofList vs], σ1))
   | .block, name :: body =>
     match blockName name with
     | none => (.err typeError, σ)
-    | some nm =>
-      let (bid, σ1) := freshId σ
-      catchRet bid (rec (.seq (withBlock ρ nm bid) body) σ1)
+    | some nm => catchRet σ.nextId (rec (.seq (withBlock ρ nm σ.nextId) body) (bumpId σ))
   | .returnFrom, name :: rest =>
     match blockName name with
     | none => (.err typeError, σ)
@@ -821,8 +814,7 @@ def stepForm (ρ : Env) (head : String) (a : List Obj) (σ : St) : Res :=
       | [e] => bindV (rec (.form ρ e) σ) (fun vs σ1 => (.ret bid vs, σ1))
       | _ => (.err programError, σ)
   | .tagbody, items =>
-    let (id, σ1) := freshId σ
-    rec (.tagbodyRun (withTags ρ id items) id items items) σ1
+    rec (.tagbodyRun (withTags ρ σ.nextId items) σ.nextId items items) (bumpId σ)
   | .go_, [tag] =>
     match ρ.tags.lookup tag with
     | some id => (.go id tag, σ)
@@ -876,8 +868,7 @@ def stepEval (ρ : Env) (e : Obj) (σ : St) : Res :=
       | some ps, some body =>
         if ps.length != as.length then (.err programError, σ) else
         bindV (rec (.args ρ as) σ) (fun vs σ1 =>
-          let (fid, σ2) := allocFrame σ1 (zipFrame ps vs)
-          rec (.seq (pushFrame ρ fid) body) σ2)
+          rec (.seq (pushFrame ρ σ1.frames.length) body) (addFrame σ1 (zipFrame ps vs)))
       | _, _ => (.err programError, σ)
     | _, _ => (.err programError, σ)
   | .cons _ _ => (.err programError, σ)
